@@ -14,7 +14,8 @@
 From Coq Require Import List NArith Bool Lia.
 From Coq.Strings Require Import Byte.
 From GM Require Import Codec.Packet Topic.MatchSpec Broker.Backend Broker.BackendSpec
-  Broker.BackendProofs Broker.BackendProofsPublish Broker.BackendProofsSteps Broker.BackendProofsHist.
+  Broker.BackendProofs Broker.BackendProofsPublish Broker.BackendProofsSteps Broker.BackendOwn Broker.BackendProofsHist
+  Broker.BackendLog.
 Import ListNotations.
 Open Scope N_scope.
 
@@ -45,7 +46,7 @@ Definition offline_queue_ok (st : state) (o : op) (r : result) (st' : state) : b
             if negb (use_temp m) && has_match (s_subs s) (m_topic m) && name_ok (m_topic m) then
               match s_act s, r with
               | None, ROk => msgs_eqb (s_sq s') (if is_full (st_cap st) (s_sq s) then s_sq s else s_sq s ++ [copy_of m])
-              | _, (ROk | RQueueFull) => msgs_eqb (s_sq s') (s_sq s) || msgs_eqb (s_sq s') (s_sq s ++ [copy_of m])
+              | _, ROk => msgs_eqb (s_sq s') (s_sq s) || msgs_eqb (s_sq s') (s_sq s ++ [copy_of m])
               | _, _ => msgs_eqb (s_sq s') (s_sq s)
               end
             else if name_ok (m_topic m) then msgs_eqb (s_sq s') (s_sq s)
@@ -120,9 +121,9 @@ Proof.
 Qed.
 
 Theorem step_offline_queue_ok st o :
-  wf st -> let (r, st') := step st o in offline_queue_ok st o r st' = true.
+  wf st -> OwnOk st -> let (r, st') := step st o in offline_queue_ok st o r st' = true.
 Proof.
-  intros W. destruct (step st o) as [r st'] eqn:E. unfold offline_queue_ok.
+  intros W O. destruct (step st o) as [r st'] eqn:E. unfold offline_queue_ok.
   apply forallb_forall. intros [id s] Hin. cbn [fst snd].
   assert (L : alookup bytes_eqb id (st_stored st) = Some s)
     by (apply (In_alookup bytes_eqb bytes_eqb_eq); [exact (proj1 (proj2 W))|exact Hin]).
@@ -160,42 +161,25 @@ Proof.
     rewrite Q; apply msgs_eqb_refl.
   - (* publish *)
     assert (Est : st' = snd (publish st c m got)) by (rewrite E; reflexivity).
-    destruct (negb (pub_err st c m) && pub_blk st c m) eqn:Hnb.
-    + rewrite publish_unfold, Hnb in E. injection E as <- <-. rewrite L.
-      destruct (negb (use_temp m) && has_match (s_subs s) (m_topic m) && name_ok (m_topic m));
-        [destruct (s_act s); apply msgs_eqb_refl|].
-      destruct (name_ok (m_topic m)); [apply msgs_eqb_refl|apply or_refl_l].
-    + pose proof (get_session_published st c m got (KStored id) Hnb) as G. cbv zeta in G.
-      cbn [get_session] in G. rewrite <- Est, L in G. cbn [option_map] in G. rewrite G.
-      rewrite publish_unfold, Hnb in E. injection E as <- _.
-      assert (Hd : forall a, let s' := deliver (pub_err st c m) got (KStored id) a m s in
-                   s' = s \/ (s' = enqueue m s)).
-      { intros a. unfold deliver. destruct a; auto; destruct (pub_err st c m); auto; destruct (mem_key (KStored id) got); auto. }
-      assert (Qe : use_temp m = false -> s_sq (enqueue m s) = s_sq s ++ [copy_of m]).
-      { intros U. unfold enqueue. rewrite U. reflexivity. }
-      assert (Qt : use_temp m = true -> s_sq (enqueue m s) = s_sq s).
-      { intros U. unfold enqueue. rewrite U. reflexivity. }
-      destruct (name_ok (m_topic m)) eqn:Hn.
-      * rewrite (classify_cases st c m s Hn).
-        destruct (use_temp m) eqn:U; cbn [negb andb].
-        -- destruct (Hd (if has_match (s_subs s) (m_topic m) then
-                          match s_act s with
-                          | Some c' => if c' =? c then if is_full (st_cap st) (queue_of m s) then AErr else AEnq
-                                       else if is_full (st_cap st) (queue_of m s) then if mem_n c' (st_dying st) then ASkip else ABlock else AEnq
-                          | None => if is_full (st_cap st) (queue_of m s) then ADrop else AEnq end else ANone)) as [-> | ->];
-             [apply msgs_eqb_refl|rewrite (Qt eq_refl); apply msgs_eqb_refl].
-        -- rewrite andb_true_r. destruct (has_match (s_subs s) (m_topic m)); [|cbn [deliver]; apply msgs_eqb_refl].
-           assert (QF : queue_of m s = s_sq s) by (unfold queue_of; rewrite U; reflexivity). rewrite QF.
-           destruct (s_act s) as [c'|].
-           ++ match goal with |- context [deliver ?e got ?k ?a m s] => destruct (Hd a) as [-> | ->] end;
-                destruct (pub_err st c m); rewrite ?(Qe eq_refl), ?msgs_eqb_refl, ?orb_true_r; reflexivity.
-           ++ destruct (pub_err st c m) eqn:Herr.
-              ** match goal with |- context [deliver ?e got ?k ?a m s] => destruct (Hd a) as [-> | ->] end;
-                   rewrite ?(Qe eq_refl), ?msgs_eqb_refl, ?orb_true_r; reflexivity.
-              ** destruct (is_full (st_cap st) (s_sq s)); cbn [deliver]; rewrite ?(Qe eq_refl); apply msgs_eqb_refl.
-      * rewrite andb_false_r.
-        match goal with |- context [deliver ?e got ?k ?a m s] => destruct (Hd a) as [-> | ->] end; [apply or_refl_l|].
-        destruct (use_temp m) eqn:U; [rewrite (Qt eq_refl); apply or_refl_l|rewrite (Qe eq_refl), msgs_eqb_refl, orb_true_r; reflexivity].
+    destruct (name_ok (m_topic m)) eqn:Hn.
+    + pose proof (publish_queue st c m got false (KStored id) s W O Hn L) as X. cbn [step] in E. rewrite E in X.
+      destruct X as [s' [G Q]]. cbn [get_session] in G. rewrite G. cbn [queue] in Q. rewrite Q.
+      unfold enq_event. cbn [get_session]. rewrite L. cbn [queue]. rewrite andb_true_r. fold (copy_of m).
+      destruct (use_temp m); cbn [Bool.eqb negb andb]; [rewrite app_nil_r; apply msgs_eqb_refl|].
+      destruct (has_match (s_subs s) (m_topic m)); cbn [andb]; [|rewrite app_nil_r; apply msgs_eqb_refl].
+      destruct (is_full (st_cap st) (s_sq s)); cbn [negb andb];
+        destruct (s_act s); destruct r; rewrite ?app_nil_r, ?msgs_eqb_refl, ?orb_true_r; reflexivity.
+    + rewrite andb_false_r.
+      destruct (pub_stuck st c m) eqn:Hnb.
+      * cbn [step] in E. rewrite publish_unfold, Hnb in E. injection E as <- <-. rewrite L. apply or_refl_l.
+      * pose proof (get_session_published st c m got (KStored id) Hnb) as G. cbv zeta in G.
+        cbn [get_session] in G. rewrite <- Est, L in G. cbn [option_map] in G. rewrite G.
+        match goal with |- context [deliver ?e got ?k ?a m s] =>
+          assert (Hd : deliver e got k a m s = s \/ deliver e got k a m s = enqueue m s)
+            by (unfold deliver; destruct a; auto; destruct e; auto; destruct (mem_key k got); auto);
+          destruct Hd as [-> | ->] end; [apply or_refl_l|].
+        unfold enqueue. destruct (use_temp m); cbn [s_sq]; [apply or_refl_l|].
+        fold (copy_of m). unfold live_copy. fold (copy_of m). rewrite msgs_eqb_refl, orb_true_r. reflexivity.
   - (* dequeue *)
     unfold dequeue in E. destruct (session_of st c) as [[k s0]|] eqn:S.
     2:{ injection E as <- <-. rewrite L. unfold holds_stored, session_of in *.
@@ -267,13 +251,13 @@ Qed.
 (* ------------------------------------------------------------------ along every history *)
 Theorem offline_queue_along cap ops : holds_along offline_queue_ok cap ops.
 Proof.
-  apply holds_along_intro. intros st o W. pose proof (step_offline_queue_ok st o W) as X.
+  apply holds_along_intro. intros st o W O. pose proof (step_offline_queue_ok st o W (own_ownok st O)) as X.
   destruct (step st o). intros _; exact X.
 Qed.
 
 Theorem session_present_along cap ops : holds_along session_present_ok cap ops.
 Proof.
-  apply holds_along_intro. intros st o _. pose proof (step_session_present_ok st o) as X.
+  apply holds_along_intro. intros st o _ _. pose proof (step_session_present_ok st o) as X.
   destruct (step st o). intros _; exact X.
 Qed.
 
